@@ -449,11 +449,12 @@ def Merger.coveredUpTo (m : Merger) (k : Bytes) : Bool :=
   | some l => Bytes.le k l
   | none => false
 
-/-- the `for ; m.cachedIdx < len(m.cachedRegions); m.cachedIdx++` loop of appendRegion -/
+/-- the `for ; m.cachedIdx < len(m.cachedRegions); m.cachedIdx++` loop of appendRegion; the skip test is
+    `m.lastEndKey != nil && len(cached.EndKey()) > 0 && bytes.Compare(*m.lastEndKey, cached.EndKey()) >= 0` -/
 def mergerFlushBefore (lastEndKey : Option Bytes) (uStart : Bytes) : List Region → List Region → List Region × List Region
   | [], merged => ([], merged)
   | c :: cs, merged =>
-    if (match lastEndKey with | some l => Bytes.le c.endKey l | none => false) then
+    if (match lastEndKey with | some l => !c.endKey.isEmpty && Bytes.le c.endKey l | none => false) then
       mergerFlushBefore lastEndKey uStart cs merged
     else if Bytes.le uStart c.start then (c :: cs, merged)
     else mergerFlushBefore lastEndKey uStart cs (c :: merged)
@@ -472,7 +473,7 @@ def Merger.appendRegion (m : Merger) (u : Region) : Merger :=
 def mergerFlushRest (lastEndKey : Option Bytes) : List Region → List Region → List Region
   | [], merged => merged
   | c :: cs, merged =>
-    if (match lastEndKey with | some l => Bytes.le c.endKey l | none => false) then mergerFlushRest lastEndKey cs merged
+    if (match lastEndKey with | some l => !c.endKey.isEmpty && Bytes.le c.endKey l | none => false) then mergerFlushRest lastEndKey cs merged
     else mergerFlushRest lastEndKey cs (c :: merged)
 
 def Merger.build (m : Merger) : List Region := (mergerFlushRest m.lastEndKey m.cached m.merged).reverse
